@@ -240,6 +240,11 @@ func ZZVerifC11Seq() {
 		zzListen(child, "child", log, "", -1)
 	}
 	rootFail, childFail := false, false
+	// a task of the root that stays pending until the root is being closed
+	pending := nd.Bool("pending-task-and-late-child")
+	if pending {
+		nd.Assume(root.AddTasks(1) == nil)
+	}
 	k := nd.Param("K", 3)
 	n := nd.Choose("nops", k+1)
 	for i := 0; i < n; i++ {
@@ -270,7 +275,27 @@ func ZZVerifC11Seq() {
 	if child != nil {
 		childErr = child.Close()
 	}
+	// a task of the root is still pending; meanwhile a child is created and
+	// closed although the root may already be done (it is then refused as a
+	// task of the root and must not sign off on it): the root's Close still
+	// waits for the pending task
+	var wg sync.WaitGroup
+	if pending {
+		late := NewChild(root, ChildParams{Name: "late"})
+		late.Close()
+		wg.Add(1)
+		go func() {
+			defer wg.Done()
+			log.add("root", zzTaskDone)
+			root.DoneTask()
+		}()
+	}
 	rootErr := root.Close()
+	wg.Wait()
+	if pending {
+		nd.Assert(log.index("root", zzTaskDone) < log.index("root", app.BeforeCommitEvent) || log.count("root", app.BeforeCommitEvent) == 0, "C11/seq/commit-after-pending-task")
+		nd.Assert(log.index("root", zzTaskDone) < log.index("root", app.BeforeRollbackEvent) || log.count("root", app.BeforeRollbackEvent) == 0, "C11/seq/rollback-after-pending-task")
+	}
 	zzCheckProtocol(log, "root", "C11/seq/root")
 	nd.Assert((rootErr != nil) == rootFail, "C11/seq/root-fails-iff-error-or-kill")
 	nd.Assert((log.count("root", app.RollbackEvent) == 1) == rootFail, "C11/seq/root-rollback-iff-error-or-kill")
